@@ -194,8 +194,10 @@ fn layout_writer_as(cx: &mut Ctx, esc: &Src, ty: &str, max: u32, prefix: &str) {
     breakpoints(wf, &mut bps);
     bps.insert('\'' as u32);
     bps.insert('"' as u32);
-    let reps = cells(&bps, max);
-    cx.unit(&format!("{} partition cells", ty), reps.len());
+    // quick: one representative per cell of the partition; thorough: every scalar value (the partition argument is
+    // then not needed: the two functions are evaluated on the whole input space)
+    let reps: Vec<u32> = if cx.tier == "thorough" { (0..=max).filter(|c| !(0xD800..=0xDFFF).contains(c)).collect() } else { cells(&bps, max) };
+    cx.unit(&format!("{} {}", ty, if cx.tier == "thorough" { "scalar values (exhaustive)" } else { "partition cells" }), reps.len());
     let bytes = ty == "AsciiEscape";
     let methods = quote_methods;
     let mut bad_a1 = 0;
